@@ -192,7 +192,7 @@ def run_history(text, hist):
                         sf = Sourcefile.from_source(text, frontend=Frontend.REGEX, parser_classes=flag(ev))
                     else:
                         sf.make_complete(frontend=Frontend.REGEX, parser_classes=flag(ev))
-            except Exception as e:  # pylint: disable=broad-except
+            except (Exception, CpuBudget) as e:  # pylint: disable=broad-except
                 bad = (i, e)
                 break
         if bad is None:
